@@ -46,6 +46,8 @@ type monitor struct {
 	bcastBy    map[dkey]map[int]int // broadcasts per node
 	events     int
 	thresholds int
+	failing1   int // SigAgg calls with exactly one validator whose set mixes signing roots
+	failing2   int // ... with two or more such validators in one call
 	broadcasts int
 	stores     int
 	checkedOK  int
@@ -442,9 +444,39 @@ func (m *monitor) thresholdReached(nodeIdx int, duty core.Duty, set map[core.Pub
 			f()
 		}
 	}()
+	// how many validators of this one call cannot yield a valid aggregate: their threshold set
+	// mixes signing roots (independent computation) although the message roots agree
+	failing := 0
+	for _, sigs := range set {
+		sroots := map[[32]byte]bool{}
+		for _, s := range sigs {
+			item, err := fromCore(s.SignedData)
+			if err != nil {
+				continue
+			}
+			info, err := m.w.ch.inspect(item)
+			if err != nil {
+				continue
+			}
+			sr, _, err := m.w.ch.signingRoot(info.Root, info.Domain, info.Epoch)
+			if err == nil {
+				sroots[sr] = true
+			}
+		}
+		if len(sroots) > 1 {
+			failing++
+		}
+	}
 	m.mu.Lock()
 	defer m.mu.Unlock()
 	m.thresholds++
+	switch {
+	case failing >= 2:
+		m.failing2++
+		m.noteLocked("threshold node=%d %v: %d validators of one call have mixed signing roots", nodeIdx, duty, failing)
+	case failing == 1:
+		m.failing1++
+	}
 	for pk, sigs := range set {
 		roots := map[[32]byte]bool{}
 		shares := map[int]bool{}
